@@ -221,8 +221,11 @@ func c01Spaces(c *fw.Ctx) {
 							r.Fail("no-rdata/header", "UnpackRR(%x) header = %+v", want, *h)
 						}
 						// the typed record Unpack returned for RDLENGTH 0 can be packed again as the last record of a message
-						if _, err := (&dns.Msg{Answer: []dns.RR{rr}}).Pack(); err != nil {
+						if mb, err := (&dns.Msg{Answer: []dns.RR{rr}}).Pack(); err != nil {
 							r.Fail("no-rdata/typed-repack", "Msg.Pack of the %T returned by UnpackRR for RDLENGTH 0 fails: %v", rr, err)
+						} else if !bytes.Equal(mb[12:], want) {
+							// the converse clause: an RFC 2136 message is canonical and well-formed, Pack(Unpack(o)) must be o
+							r.Fail("no-rdata/typed-repack-differs/"+typeName(t), "Pack(Unpack(o)) of an RDATA-less %s record (class %d) = %x\no = %x: the %T returned for RDLENGTH 0 packs its fixed-width fields", typeName(t), cl, mb[12:], want, rr)
 						}
 						for _, x := range []dns.RR{&dns.ANY{Hdr: dns.RR_Header{Name: h.Name, Rrtype: t, Class: cl}}, &dns.RR_Header{Name: h.Name, Rrtype: t, Class: cl}} {
 							n, err := dns.PackRR(x, packBuf, 0, nil, false)
@@ -866,4 +869,11 @@ func c16FirstOfType(list []c16NC, tn string) dns.RR {
 		}
 	}
 	return nil
+}
+
+func typeName(t uint16) string {
+	if s := wire.Specs[t]; s != nil {
+		return s.Mnem
+	}
+	return fmt.Sprintf("TYPE%d", t)
 }
